@@ -44,7 +44,8 @@ Fixpoint weval (d : wdesc) (t : tmpl) : bool :=
    1 Word:       custom_decode = dna.value;                   custom_encode accepts a str *)
 Definition std_cdec (ck : nat) (s : str) : result tmpl :=
   match ck with
-  | O => Ok (TList (map (fun c => TLeaf (LfInt (Z.of_N c))) s))
+  | O => if forallb (fun c => (c <? 1114112)%N) s          (* every Python str satisfies this *)
+         then Ok (TList (map (fun c => TLeaf (LfInt (Z.of_N c))) s)) else Err E_VALUE
   | 1%nat => Ok (TLeaf (LfStr s))
   | _ => Err E_VALUE
   end.
